@@ -379,4 +379,27 @@ while need:
 for n, r in enumerate(rows):
     e = elem(F_tag[r[0]], F_attrs[r[1]], F_dir[r[2]], F_kids[r[3]])
     w(f"combo/c{n:03d}.jsx", "import { KeepAlive } from 'vue';\n" + F_pos[r[4]].replace("%s", e))
+
+# ---- F. tag names by length: native HTML/SVG names of 9..19 bytes (from css_dataset 0.3.0, the lists the pass
+# consults) next to made-up names of the same lengths, one small module per (length, kind), so that consecutive files
+# on one thread hold different names of equal size - the situation in which anything keyed by where a name lives
+# rather than by what it says goes wrong
+long_native = {
+    9: ["font-face"], 10: ["blockquote", "figcaption"], 11: ["altGlyphDef", "feComposite", "feMergeNode", "feSpotLight"],
+    12: ["altGlyphItem", "animateColor", "feMorphology", "fePointLight", "feTurbulence"],
+    13: ["animateMotion", "color-profile", "feColorMatrix", "font-face-src", "foreignObject", "missing-glyph"],
+    14: ["feDistantLight", "feGaussianBlur", "font-face-name", "linearGradient", "radialGradient"],
+    16: ["animateTransform", "feConvolveMatrix", "font-face-format"], 17: ["feDiffuseLighting", "feDisplacementMap"],
+    18: ["feSpecularLighting"], 19: ["feComponentTransfer"],
+}
+def made_up(name):  # same length, same shape, not a native name
+    return name[:-1] + ("x" if name[-1] != "x" else "y")
+for L, names in long_native.items():
+    body = lambda ns: "\n".join(f"const t{i} = <{n}>{{k{i}}}</{n}>;\nconst u{i} = <{n} a={{a{i}}} />;" for i, n in enumerate(ns))
+    w(f"tags-long/len{L:02d}-native.jsx", body(names))
+    w(f"tags-long/len{L:02d}-madeup.jsx", body([made_up(n) for n in names]))
+    w(f"tags-long/len{L:02d}-mixed.jsx", body([x for n in names for x in (n, made_up(n))]))
+short = ["a", "b", "em", "div", "span", "video", "button", "section", "textarea"]
+w("tags-long/short-native.jsx", "\n".join(f"const t{i} = <{n}>{{k{i}}}</{n}>;" for i, n in enumerate(short)))
+w("tags-long/short-madeup.jsx", "\n".join(f"const t{i} = <{made_up(n)}>{{k{i}}}</{made_up(n)}>;" for i, n in enumerate(short)))
 print("generated under", os.path.normpath(root))
